@@ -198,6 +198,11 @@ class FieldData:
                "cannot be renamed to {}: ".format(value)+
                "the name is already in use\n"+
                "Line with that name: {}".format(str(previous)))
+         if value is not None and 1 <= self.vlevel < 3:
+           # (the name is parsed when the line is registered again:
+           # an invalid one shall be refused before the line is unregistered)
+           gfapy.Field._validate_gfa_field(value,
+               self._field_datatype(fieldname), fieldname)
          renaming_connected = True
          self._gfa._unregister_line(self)
     if value is None:
